@@ -19,6 +19,10 @@
 (*    est / act = <<resource key id, count>> sequences: the graph's        *)
 (*    resource estimate summed over the circuit and the gate counts of the *)
 (*    circuit the transform actually produced.                             *)
+(*  kind "dev": one call of devices.preprocess.decompose:                   *)
+(*    d        the call shape (see DecompModel), ins / out = <<[name, stop,  *)
+(*             prep]>> every operator of the input / result: name, value of *)
+(*             the stopping condition, whether it is a StatePrepBase        *)
 (***************************************************************************)
 EXTENDS DecompModel, TLC, Json, IOUtils
 CONSTANT NTRACES
@@ -39,7 +43,13 @@ VEstimate(t) ==
   IF ~t.exact THEN "ok"
   ELSE IF Pos(a) # Pos(e) THEN (IF Pos(a) \subseteq Pos(e) THEN "estimated-gate-not-applied" ELSE "applied-gate-not-estimated")
   ELSE IF \E k \in Pos(a) : a[k] # e[k] THEN "estimate-count-differs" ELSE "ok"
-Verdict(t) == IF t.kind = "decompose" THEN VDecompose(t) ELSE VEstimate(t)
+VDev(t) ==
+  IF ~DevShapeOK(t.d, t.ins) THEN "bad-case:shape"
+  ELSE IF t.err # "" THEN (IF t.err \in DevErrors THEN "ok" ELSE "undocumented-error")
+  ELSE IF \E i \in 1..Len(t.out) : ~DevAllowed(t.d, t.warned, i, t.out[i]) THEN "operator-rejected-by-stopping-condition"
+  ELSE IF t.min # t.mout THEN "measurements-changed"
+  ELSE "ok"
+Verdict(t) == IF t.kind = "decompose" THEN VDecompose(t) ELSE IF t.kind = "dev" THEN VDev(t) ELSE VEstimate(t)
 Init == tid \in 1..NTRACES /\ done = FALSE
 Next == ~done /\ done' = TRUE /\ UNCHANGED tid /\ PrintT(<<"V", tid, Verdict(Traces[tid])>>)
 =============================================================================
